@@ -328,6 +328,24 @@ fn case1<T: Elem>(case: u64, args: &Args, ev: &mut Ev) {
             for (s, wkind, nt) in wrong_shapes(&want, qshape.len(), dyn_out) {
                 c.wrong_buffer::<T>(&what, &s, &wkind, nt, &mut |b| interp.many_into(&qa, b));
             }
+            // the same query values stored once and viewed with zero strides (broadcast views):
+            // a scalar repeated along the first axis
+            if !qshape.is_empty() && qshape[0] > 1 && n <= 64 {
+                let mut red = qshape.clone();
+                red[0] = 1;
+                let m: usize = red.iter().product();
+                let rvals: Vec<T> = (0..m).map(|_| rand_in(&mut rng, x[0], x[x.len() - 1])).collect();
+                let qb = Query::broadcast(&ArrayD::from_shape_vec(IxDyn(&red), rvals).unwrap(), &qshape, kind);
+                let reference = interp.many(&qb);
+                if !matches!(reference, Outcome::Untypeable) {
+                    let what = format!("interp_array_into({})", qb.name());
+                    c.ev.count("query", format!("{}(broadcast)", kind.name()));
+                    c.good_buffer(&mut rng, &what, &want, &reference, &mut |b| interp.many_into(&qb, b));
+                    for (s, wkind, nt) in wrong_shapes(&want, qshape.len(), dyn_out) {
+                        c.wrong_buffer::<T>(&what, &s, &wkind, nt, &mut |b| interp.many_into(&qb, b));
+                    }
+                }
+            }
             // the same batch made of one special value throughout, and with one special element
             if n > 0 && n <= 64 {
                 let sp = special_queries(&x);
@@ -400,6 +418,26 @@ fn case2<T: Elem>(case: u64, args: &Args, ev: &mut Ev) {
             let dyn_out = spec.dynamic || kind == QKind::Dyn || want.len() > 6;
             for (s, wkind, nt) in wrong_shapes(&want, qshape.len(), dyn_out) {
                 c.wrong_buffer::<T>(&what, &s, &wkind, nt, &mut |b| interp.many_into(&qax, &qay, b));
+            }
+            // mesh-grid style broadcast views: xs repeated along the first axis, ys along the last
+            if qshape.len() >= 2 && qshape[0] > 1 && qshape[qshape.len() - 1] > 1 && n <= 64 {
+                let (mut rx, mut ry) = (qshape.clone(), qshape.clone());
+                rx[0] = 1;
+                let last = qshape.len() - 1;
+                ry[last] = 1;
+                let bx: Vec<T> = (0..rx.iter().product::<usize>()).map(|_| rand_in(&mut rng, x[0], x[x.len() - 1])).collect();
+                let by: Vec<T> = (0..ry.iter().product::<usize>()).map(|_| rand_in(&mut rng, y[0], y[y.len() - 1])).collect();
+                let qbx = Query::broadcast(&ArrayD::from_shape_vec(IxDyn(&rx), bx).unwrap(), &qshape, kind);
+                let qby = Query::broadcast(&ArrayD::from_shape_vec(IxDyn(&ry), by).unwrap(), &qshape, kind);
+                let reference = interp.many(&qbx, &qby);
+                if !matches!(reference, Outcome::Untypeable) {
+                    let what = format!("2-D interp_array_into({}, mesh grid)", qbx.name());
+                    c.ev.count("query", format!("2d-{}(broadcast)", kind.name()));
+                    c.good_buffer(&mut rng, &what, &want, &reference, &mut |b| interp.many_into(&qbx, &qby, b));
+                    for (s, wkind, nt) in wrong_shapes(&want, qshape.len(), dyn_out) {
+                        c.wrong_buffer::<T>(&what, &s, &wkind, nt, &mut |b| interp.many_into(&qbx, &qby, b));
+                    }
+                }
             }
             if n > 0 && n <= 64 {
                 let sp = special_queries(&x);
